@@ -64,12 +64,24 @@ def run(ctx):
             recs = [(n, "".join(ch if (k % 9) else rng.choice("RYSWKMDHV") for k, ch in enumerate(s)) if rng.random() < 0.8 else s) for n, s in recs]
             recs = [(n, s.replace("T", "U") if rng.random() < 0.5 else s) for n, s in recs]
             boundary = True
+        dupnames = False
+        if rng.random() < 0.2 and len(recs) >= 3 and not boundary:
+            # records with the SAME name and the same length but different residues (the same accession in two merged files): whatever breaks
+            # the tie between them must not look at the spelling
+            L0 = min(len(q) for _, q in recs)
+            k1, k2 = rng.sample(range(len(recs)), 2)
+            recs[k1] = (recs[k1][0], recs[k1][1][:L0])
+            recs[k2] = (recs[k1][0], recs[k2][1][:L0])
+            if recs[k1][1] == recs[k2][1]:
+                continue
+            dupnames = True
+            ctx.count("duplicate_name_records")
         alt = [(n, respell(rng, s, nuc)) for n, s in recs]
         if alt == recs:
             continue
         t = rng.choice([3, 4, 5]) if kind == "protein" else rng.choice([0, 1, 2, 5])
         t = gen.fit_type(t, kind, recs)
-        api = "file" if boundary else rng.choice(["file", "arr"])      # the detected kind is only observable through the file API
+        api = "file" if (boundary or dupnames) else rng.choice(["file", "arr"])      # the detected kind is only observable through the file API
         th = rng.choice([1, 4])
         a = Case(recs, t, threads=th, api=api, fmt="fasta")
         b = Case(alt, t, threads=th, api=api, fmt="fasta")
@@ -89,6 +101,37 @@ def run(ctx):
             b = Case(alt, t, threads=th, api=api, fmt="fasta", intext=render(_random.Random(k), rows_alt), tag=render.__name__)
             ctx.count("presented_" + render.__name__)
         pairs.append((a, b))
+    # dedicated stream: two records with the same name and length that differ in residues, inside a family with low-complexity repeats (so
+    # that equally good gap placements exist); the respelling touches exactly the first position where the two differ (case, or T<->U)
+    for j in range(40 if ctx.quick else 400):
+        kind = rng.choice(["dna", "rna"])
+        Tq = "U" if kind == "rna" else "T"
+        unit = "".join(rng.choice("ACG" + Tq) for _ in range(rng.choice([1, 2, 3])))
+        base = gen.rand_seq(rng, "ACG" + Tq, rng.randint(6, 14)) + unit * rng.randint(3, 7) + gen.rand_seq(rng, "ACG" + Tq, rng.randint(6, 14))
+        recs = []
+        for k in range(rng.randint(3, 5)):
+            q = base
+            cut = rng.randrange(len(base))
+            q = q[:cut] + q[cut + rng.randint(1, 3):] if rng.random() < 0.7 else q
+            recs.append(("s%d" % k, gen.mutate(rng, q, "ACG" + Tq, 0.05, 0.0)))
+        x = gen.mutate(rng, base, "ACG" + Tq, 0.08, 0.0)
+        y = gen.mutate(rng, base, "ACG" + Tq, 0.08, 0.0)
+        if x == y or len(x) != len(y):
+            continue
+        d = next(k for k in range(len(x)) if x[k] != y[k])
+        recs += [("dup", x), ("dup", y)]
+        rng.shuffle(recs)
+        alt = []
+        for n_, q in recs:
+            if n_ == "dup" and q == x:
+                ch = q[d]
+                ch2 = {"T": "U", "U": "T"}.get(ch, ch.lower()) if rng.random() < 0.5 else ch.lower()
+                q = q[:d] + ch2 + q[d + 1:]
+            alt.append((n_, q))
+        t = gen.fit_type(rng.choice([0, 1, 2, 5]), kind, recs)
+        th = rng.choice([1, 4])
+        pairs.append((Case(recs, t, threads=th, api="file", fmt="fasta", tag="duplicate names"), Case(alt, t, threads=th, api="file", fmt="fasta", tag="duplicate names")))
+        ctx.count("duplicate_name_stream")
     sysrun.run_cases(kvh, [c for p in pairs for c in p])
     fails = []
     for a, b in pairs:
